@@ -190,6 +190,73 @@ class ImportErrors(Part):
         return Outcome(viol, labels + ['import-errors'], nt)
 
 
+@st.composite
+def sched_cases(draw):
+    """-x -j N with N layers that all start at once; every layer's first test waits at a barrier, the harness releases
+    them one at a time (generated order) and lets the parent react in between; one layer has the first bad test"""
+    n = draw(st.integers(2, 4))
+    names = draw(st.permutations(gen.LAYER_NAMES))[:n + 1]
+    with_base = draw(st.booleans())
+    layers, ch, barriers = [], [], {}
+    if with_base:
+        layers.append({'name': names[n], 'kind': 'class', 'bases': [], 'hooks': ['setUp', 'tearDown']})
+    bad_at = draw(st.integers(0, n - 1))
+    for i in range(n):
+        bases = [0] if with_base and draw(st.booleans()) else []
+        layers.append({'name': names[i], 'kind': draw(st.sampled_from(['class', 'inst'])), 'bases': bases,
+                       'hooks': ['setUp', 'tearDown']})
+        li = len(layers) - 1
+        tests = [{'n': 'test_a', 'k': 'pass', 'acts': {'body': [['barrier', 'B%d' % i]]}},
+                 {'n': 'test_b', 'k': 'pass'}, {'n': 'test_c', 'k': 'pass'}]
+        if i == bad_at:
+            victim = draw(st.integers(0, 1))
+            tests[victim]['k'] = draw(st.sampled_from(['fail', 'error', 'error_teardown', 'uxsuccess', 'subtests']))
+            tests[victim]['exc'] = 'ValueError'
+            tests[victim]['sub'] = [['pass'], ['fail']]
+        barriers['B%d' % i] = li
+        ch.append({'t': 'c', 'name': 'TC%d' % (i + 1), 'layer': li, 'tests': tests})
+    prio = draw(st.permutations(sorted(barriers)))
+    if draw(st.booleans()):     # the bad layer finishes first while all the others are in the middle of a test
+        prio = ['B%d' % bad_at] + [b for b in prio if b != 'B%d' % bad_at]
+    return {'spec': {'layers': layers, 'modules': [{'name': 'a', 'tree': {'t': 's', 'ch': ch}}]}, 'n': n,
+            'barriers': barriers, 'prio': list(prio), 'verbose': draw(st.integers(0, 2)), 'bad': 'B%d' % bad_at}
+
+
+class Sched(Part):
+    """-x together with -j N under a harness-owned schedule: whichever layer fails first, and whatever the other layer
+    subprocesses are doing at that moment, every layer that was set up in any process still gets its tear-down"""
+    name = 'sched'
+    examples = {'quick': 48, 'thorough': 800}
+    shrink_cap = {'quick': 60, 'thorough': 300}
+
+    def strategy(self, tier):
+        return sched_cases()
+
+    def execute(self, case):
+        import copy
+
+        from . import c06
+        spec = common.with_prefix(copy.deepcopy(case['spec']))
+        args = ['-x', '-j', str(case['n'])] + ['-v'] * case['verbose']
+        with drive.World(spec) as W:
+            run, info = c06.run_scheduled(W, args, case['n'], dict(case['barriers']), case['prio'], settle=0.5)
+        viol = []
+        if info['parent_timeout'] or run.exit not in (0, 1) or 'Traceback (most recent call last)' in run.err:
+            viol.append(('C16/run-aborted/sched', 'exit status %s (timeout %s), stderr: %s'
+                         % (run.exit, info['parent_timeout'], run.err[-300:])))
+        labels = ['N=%d' % case['n']]
+        if not viol and not info['stalled']:
+            v, labels2, _ = oracle(spec, {'stop': True, 'j': case['n']}, run)
+            viol += v
+            labels += labels2
+        if info['stalled']:
+            labels.append('stalled')
+        first = case['prio'][0] == case['bad']
+        if first:
+            labels.append('bad-layer-finishes-first')
+        return Outcome(viol, labels, first and not info['stalled'])
+
+
 class C16(Prop):
     id = 'C16'
     registered = True
@@ -207,7 +274,7 @@ class C16(Prop):
             'started and fewer tests started than were selected (something was really cut off).')
     assumptions = ('for -j N runs only the per-process clause is checked; runs whose layers are resumed one after the other '
                    'in subprocesses are sequential runs: no layer may be set up after the first failure in any process',)
-    parts = (InProc(), Procs(), ImportErrors())
+    parts = (InProc(), Procs(), ImportErrors(), Sched())
 
 
 PROP = C16()
